@@ -3,16 +3,26 @@ optimizePlan with join inversion, the type-join nodes, scan nodes and the fetche
 
 REDIR = {"github.com/sourcenetwork/defradb/internal/lens.NewFetcher": "qNoLens"}
 QN = {0: "parent-lists-children", 1: "child-shows-parent", 2: "parents-by-child-filter", 3: "parents-by-two-child-conditions",
-      4: "parents-by-child-filter-with-children", 5: "children-by-parent-filter"}
+      4: "parents-by-child-filter-with-children", 5: "children-by-parent-filter", 6: "parents-by-child-filter-with-ordered-children",
+      7: "parents-by-child-filter-with-count", 8: "parents-by-child-filter-ordered", 9: "parent-lists-ordered-children"}
 
 
 def jobs(tier):
     js = []
     for q in QN:
-        for idx in (0, 1):
+        for idx in (0, 1, 2, 3):
+            if idx >= 2 and q not in (5, 8):
+                continue
             nd = 2 if tier == "quick" else 3
             js.append({"id": f"O1.one-to-many.{QN[q]}.idx{idx}.devices{nd}", "func": "VerifH_C09_OneToMany", "conf": {"q": q, "idx": idx, "devices": nd},
                        "_obligation": "O1", "_covers": ["ran"], "unwind": 60})
+    ON = {0: "secondary-shows-related", 1: "primary-shows-related", 2: "parents-by-related-filter", 3: "primary-by-related-filter", 4: "parents-by-related-filter-with-related"}
+    for q in ON:
+        for idx in (0, 1, 2, 3):
+            if idx >= 2 and q != 3:
+                continue
+            js.append({"id": f"O2.one-to-one.{ON[q]}.idx{idx}", "func": "VerifH_C09_OneToOne", "conf": {"q": q, "idx": idx},
+                       "_obligation": "O2", "_covers": ["ran"], "unwind": 60})
     return js
 
 
@@ -20,10 +30,10 @@ PROPERTY = {
     "id": "C09",
     "suites": [{"name": "query", "pkg": "internal/planner", "files": ["zz_verif_query.go"], "common": ["intrinsics", "kvmodel"], "jobs": jobs,
                 "redirects": REDIR, "unwind": 60, "witnesses": {"quick": 12, "thorough": 32}}],
-    "bounds": {"parents": 2, "children": "2 (thorough 3), each owned by either parent or by none", "values": "age, year, filter constant: any int8; model: one of two strings",
-               "queries": "six request shapes (see the harness), each with and without a secondary index on Device.year (with the index the planner inverts the join for the relation filters)"},
+    "bounds": {"parents": 2, "children": "2 (thorough 3), each owned by either parent or by none", "one-to-one": "2 users, 2 addresses (city one of two strings) pointing to different users or to none", "values": "age, year in 0..3, filter constant in -1..2 (every order relation between them; the key encodings of other magnitudes are C17's subject); model: one of two strings",
+               "queries": "ten one-to-many and five one-to-one request shapes (see the harness), each with every relevant combination of secondary indexes on Device.year / Address.city and User.age (with an index on the filtered field of the related collection the planner inverts the join)"},
     "assumptions": ["collection definitions as db.AddSchema produces them for the SDL in the harness (captured natively once)", "documents and index entries are stored as collection.save / the index writers leave them (C07.O5 checks the writers)",
                     "cbor of field values is a model (integers, short strings, null); lens.NewFetcher is the identity (no migrations registered)", "the store follows the corekv contract (kvmodel)"],
-    "outside_claim": ["the GraphQL parser (requests are hand-built request.Select values)", "one-to-one relations, ordering / limits / aggregates through a relation, grouping", "the write-side rule that a one-to-one link is held by one document at a time",
+    "outside_claim": ["the GraphQL parser (requests are hand-built request.Select values)", "limits and aggregates other than _count through a relation, ordering parents by a field of the related collection, grouping", "the write-side rule that a one-to-one link is held by one document at a time",
                       "more than 2 parents / 3 children, relations deeper than one level"],
 }
